@@ -290,7 +290,7 @@ func ruleConfigWiring(r *Report) {
 	// the immutable flag
 	ok := false
 	for _, st := range fieldStores(open, "Store.immutable") {
-		if p, isP := st.Val.(*ssa.Parameter); isP && p.Name() == "immutable" {
+		if p, isP := st.Val.(*ssa.Parameter); isP && p.Parent() == open && shortType(p.Type()) == "bool" {
 			ok = true
 		}
 	}
